@@ -230,7 +230,7 @@ def check_hard_break_decorator(ctx: Ctx) -> None:
            "the wrapped segments are joined by newline so that `\\\\` + newline forms the hard break", where(w, w.node))
     # is_last is "index == len(segments) - 1"
     il = [n for n in flow.cfg.nodes if n.kind == "stmt" and isinstance(n.ast, ast.Assign) and norm(n.ast.targets[0]) == "is_last"]
-    ok = any(isinstance(n.ast.value, ast.Compare) and "len(" in norm(n.ast.value) and "- 1" in norm(n.ast.value) for n in il)
+    ok = any(_is_last_index_test(n.ast.value) for n in il)
     ctx.ob("R-HARDBREAK", f"{w.qual} :: last-segment test", ok, "is_last must compare the segment index with len(segments) - 1", where(w, w.node))
     # the split pattern matches both hard-break spellings
     from ..constfold import Folder, Unknown
@@ -244,6 +244,41 @@ def check_hard_break_decorator(ctx: Ctx) -> None:
 
     ok = _re.fullmatch(pat, "\\\n") is not None and _re.fullmatch(pat, "  \n") is not None and _re.fullmatch(pat, "\n") is None
     ctx.ob("R-HARDBREAK", f"{LW}:_line_break_re", ok, f"the split pattern {pat!r} must match backslash-newline and two-spaces-newline but not a soft break", "line_wrappers.py")
+
+
+def _is_last_index_test(e: ast.AST) -> bool:
+    """Truth table over small sizes: the comparison holds exactly for index == len - 1."""
+    if not isinstance(e, ast.Compare) or len(e.ops) != 1:
+        return False
+
+    class Bad(Exception):
+        pass
+
+    def ev(x: ast.AST, i: int, n: int) -> int:
+        if isinstance(x, ast.Constant) and isinstance(x.value, int):
+            return x.value
+        if isinstance(x, ast.Name):
+            return i
+        if isinstance(x, ast.Call) and isinstance(x.func, ast.Name) and x.func.id == "len":
+            return n
+        if isinstance(x, ast.BinOp) and isinstance(x.op, (ast.Add, ast.Sub)):
+            a, b = ev(x.left, i, n), ev(x.right, i, n)
+            return a + b if isinstance(x.op, ast.Add) else a - b
+        raise Bad
+
+    ops = {ast.Eq: lambda a, b: a == b, ast.GtE: lambda a, b: a >= b, ast.LtE: lambda a, b: a <= b, ast.Gt: lambda a, b: a > b,
+           ast.Lt: lambda a, b: a < b, ast.NotEq: lambda a, b: a != b}
+    f = ops.get(type(e.ops[0]))
+    if f is None:
+        return False
+    try:
+        for n in range(1, 6):
+            for i in range(n):
+                if f(ev(e.left, i, n), ev(e.comparators[0], i, n)) != (i == n - 1):
+                    return False
+    except Bad:
+        return False
+    return True
 
 
 def check_parser_input(ctx: Ctx) -> None:
